@@ -243,6 +243,8 @@ def run_property(prop, tier='quick', seed=0, out=sys.stdout):
     for e in errors:
         print(f"CHECKER-ERROR property={prop} {e}", file=out)
     nobl = len(allobs)
+    kf_names = set(k.get('obligation') for k in known if k.get('status', 'open') == 'open')
+    n_known_obl = sum(1 for o in allobs if o['name'] in kf_names and o['result']['verdict'] != 'unsat')
     if nobl == 0 and not errors:
         errors.append("zero obligations generated")
         print(f"CHECKER-ERROR property={prop} zero obligations generated", file=out)
@@ -256,7 +258,9 @@ def run_property(prop, tier='quick', seed=0, out=sys.stdout):
     ev = dict(
         property_id=prop, tier=tier, seed=seed, level='proof',
         coverage=dict(
-            obligations=nobl, discharged=discharged,
+            # obligations of recorded known findings are not part of the proof claim: they are counted separately
+            obligations=nobl - n_known_obl, discharged=discharged,
+            known_finding_obligations=n_known_obl,
             checker_cmd=f"./check {prop} --tier {tier}",
             trusted_base=TRUSTED_BASE + PROPERTY_NOTES.get(prop, {}).get('assumptions', []),
             functions_under_contract=fn_summ,
